@@ -120,6 +120,19 @@ func treePath(t *topo, a, b int) []int {
 	return p
 }
 
+// lossyPath: the tree path from a to b crosses a UDP link.
+func lossyPath(t *topo, a, b int) bool {
+	p := treePath(t, a, b)
+	for i := 0; i+1 < len(p); i++ {
+		for _, l := range t.links {
+			if l.kind == "udp" && ((l.a == p[i] && l.b == p[i+1]) || (l.b == p[i] && l.a == p[i+1])) {
+				return true
+			}
+		}
+	}
+	return false
+}
+
 func meshTopologies(c *Ctx) []*topo {
 	r := c.Rng
 	mk := func(name string, n int, links ...lk) *topo {
@@ -168,9 +181,57 @@ func meshCases(c *Ctx, im *Impl, cf *CaseFile) {
 	}
 	wireCases := 0
 	for _, t := range meshTopologies(c) {
-		runMesh(c, im, cf, t, perSender, &bigBudget, &wireCases)
+		// A verdict that rests on something NOT having arrived within a bounded wait (lost datagram,
+		// missing wire packet, no convergence) is reported only if a second, fresh run of the same
+		// scenario shows it again: a loaded machine may exceed any bound once.
+		tmpIm := NewImpl("C02", c.Seed, c.Tier)
+		tmpCf := &CaseFile{}
+		bb, wc := bigBudget, wireCases
+		runMesh(c, tmpIm, tmpCf, t, perSender, &bb, &wc)
+		absence := 0
+		for _, v := range tmpIm.Violations {
+			if absenceSig[v.Sig] {
+				absence++
+			}
+		}
+		if absence > 0 && absence == len(tmpIm.Violations) {
+			im.Hist("mesh:scenario-repeated-after-a-missing-arrival")
+			im.Extra["mesh-retry:"+t.name] = fmt.Sprintf("first run: %d verdict(s) about something that did not arrive in time (%s); scenario repeated", absence, tmpIm.Violations[0].What)
+			tmpIm = NewImpl("C02", c.Seed, c.Tier)
+			tmpCf = &CaseFile{}
+			bb, wc = bigBudget, wireCases
+			runMesh(c, tmpIm, tmpCf, t, perSender, &bb, &wc)
+		}
+		bigBudget, wireCases = bb, wc
+		mergeImpl(im, tmpIm)
+		for i := range tmpCf.Cases {
+			cf.Add(tmpCf.Cases[i], tmpCf.Labels[i])
+		}
 	}
 	observeOversize(c, im)
+}
+
+// verdicts about an absence within a bounded wait
+var absenceSig = map[string]bool{"mesh-lost": true, "wire-missing-packet": true, "mesh-no-convergence": true}
+
+func mergeImpl(dst, src *Impl) {
+	dst.Evaluations += src.Evaluations
+	for k := range src.Distinct {
+		if !dst.Distinct[k] {
+			dst.Distinct[k] = true
+			dst.NonTrivial++
+		}
+	}
+	for k, v := range src.Histogram {
+		dst.Histogram[k] += v
+	}
+	for _, x := range src.Samples {
+		dst.Sample(x)
+	}
+	dst.Violations = append(dst.Violations, src.Violations...)
+	for k, v := range src.Extra {
+		dst.Extra[k] = v
+	}
 }
 
 // observeOversize records (it does not judge: C02 is about payloads up to the MTU) what happens
@@ -189,9 +250,12 @@ func observeOversize(c *Ctx, im *Impl) {
 		return
 	}
 	tail := string(out)
-	if j := strings.Index(tail, "panic:"); j >= 0 {
-		tail = tail[j:]
+	j := strings.Index(tail, "panic:")
+	if j < 0 { // killed by the time limit, could not bind, ...: nothing can be concluded
+		im.Extra["observation:payload-above-MTU-over-stream-link"] = fmt.Sprintf("inconclusive: the child process did not finish (%v)", err)
+		return
 	}
+	tail = tail[j:]
 	if len(tail) > 400 {
 		tail = tail[:400]
 	}
@@ -272,7 +336,9 @@ func runMesh(c *Ctx, im *Impl, cf *CaseFile, t *topo, perSender int, bigBudget *
 		a, b := t.nodes[l.a], t.nodes[l.b]
 		if l.kind != "" {
 			if err := connectReal(l.kind, mesh.Nodes[a], mesh.Nodes[b], r, st, mkTap(a, b), mkTap(b, a)); err != nil {
-				im.Violate(fmt.Sprintf("mesh %s: %s link %s-%s cannot be set up: %v", t.name, l.kind, a, b, err), "mesh-backend-setup", t.name)
+				// the environment (no free port, ...), not the property: inconclusive
+				im.Hist("mesh:inconclusive-backend-setup")
+				im.Extra["mesh:"+t.name] = fmt.Sprintf("inconclusive: %s link %s-%s cannot be set up: %v", l.kind, a, b, err)
 				return
 			}
 		} else if l.stream {
@@ -292,8 +358,19 @@ func runMesh(c *Ctx, im *Impl, cf *CaseFile, t *topo, perSender int, bigBudget *
 			}
 		}
 	}
-	if !mesh.WaitRoutes(want, 15*time.Second) {
-		im.Violate("mesh "+t.name+" did not converge within 15 s", "mesh-no-convergence", t.name)
+	hasUDP := false
+	for _, l := range t.links {
+		if l.kind == "udp" {
+			hasUDP = true
+		}
+	}
+	if !mesh.WaitRoutes(want, 60*time.Second) {
+		if hasUDP { // routing updates are datagrams too
+			im.Hist("mesh:inconclusive-no-convergence-over-udp")
+			im.Extra["mesh:"+t.name] = "inconclusive: no convergence within 60 s over a UDP link"
+			return
+		}
+		im.Violate("mesh "+t.name+" did not converge within 60 s", "mesh-no-convergence", t.name)
 		return
 	}
 	// listeners: bound names, an advertised one, an ephemeral one per node; readers with and without
@@ -463,7 +540,40 @@ func runMesh(c *Ctx, im *Impl, cf *CaseFile, t *topo, perSender int, bigBudget *
 			expected++
 		}
 	}
-	WaitFor(8*time.Second, func() bool { recvMu.Lock(); defer recvMu.Unlock(); return len(recvs) >= expected })
+	// wait for the deliveries: as long as datagrams keep arriving, and 20 s (1.5 s when only datagrams
+	// that cross a UDP link are outstanding: those may be lost) beyond the last arrival, at most 120 s
+	{
+		idx0 := map[string]int{}
+		for i, n := range t.nodes {
+			idx0[n] = i
+		}
+		reliable := 0
+		for _, s := range sends {
+			if s.expect && !lossyPath(t, idx0[s.fromNode], idx0[s.toNode]) {
+				reliable++
+			}
+		}
+		lastN, lastT, start := -1, time.Now(), time.Now()
+		for time.Since(start) < 120*time.Second {
+			recvMu.Lock()
+			n := len(recvs)
+			recvMu.Unlock()
+			if n >= expected {
+				break
+			}
+			if n != lastN {
+				lastN, lastT = n, time.Now()
+			}
+			patience := 20 * time.Second
+			if n >= reliable && hasUDP { // a lower bound only: what is missing may all be UDP loss
+				patience = 1500 * time.Millisecond
+			}
+			if time.Since(lastT) > patience {
+				break
+			}
+			time.Sleep(5 * time.Millisecond)
+		}
+	}
 	time.Sleep(150 * time.Millisecond) // anything delivered twice or elsewhere shows up now
 	// ---------- names that do not fit the 8-byte field: refused, nothing delivered to anyone ----------
 	{
@@ -515,17 +625,31 @@ func runMesh(c *Ctx, im *Impl, cf *CaseFile, t *topo, perSender int, bigBudget *
 			}
 		}
 		recvMu.Lock()
+		var late []recvRec // a datagram of the main traffic that arrives only now is not of this phase
 		for _, d := range recvs[before:] {
+			if !bytes.HasPrefix(d.payload, []byte("overlong")) {
+				late = append(late, d)
+				continue
+			}
 			im.Violate(fmt.Sprintf("listener %q:%q was handed a datagram (%q from %s) that was addressed to a longer service name", d.node, d.svc, string(d.payload[:min(len(d.payload), 18)]), d.from),
 				"mesh-misdelivered:overlong-service", map[string]interface{}{"topology": t.name, "node": d.node, "svc": d.svc, "from": d.from})
 		}
-		recvs = recvs[:before]
+		recvs = append(recvs[:before], late...)
 		recvMu.Unlock()
 		tapMu.Lock()
-		if len(taps) > tapsBefore {
-			im.Violate(fmt.Sprintf("%d packets on the wire for sends that must be refused (over-long service name)", len(taps)-tapsBefore), "overlong-service-on-the-wire", t.name)
+		onWire := 0
+		var lateTaps []tapRec
+		for _, tp := range taps[tapsBefore:] {
+			if len(tp.raw) >= 44 && bytes.HasPrefix(tp.raw[36:], []byte("overlong")) {
+				onWire++
+			} else {
+				lateTaps = append(lateTaps, tp)
+			}
 		}
-		taps = taps[:tapsBefore]
+		if onWire > 0 {
+			im.Violate(fmt.Sprintf("%d packets on the wire for sends that must be refused (over-long service name)", onWire), "overlong-service-on-the-wire", t.name)
+		}
+		taps = append(taps[:tapsBefore], lateTaps...)
 		tapMu.Unlock()
 	}
 	close(stop)
@@ -545,6 +669,8 @@ func runMesh(c *Ctx, im *Impl, cf *CaseFile, t *topo, perSender int, bigBudget *
 		bufLens[l.node+"\x00"+l.svc] = l.bufLen
 	}
 	exp := map[key]int{}
+	lossyKey := map[key]bool{} // datagrams whose path crosses a UDP link: may be lost, may be duplicated
+	udpSent, udpLost, udpDup := 0, 0, 0
 	byPayload := map[string][]sendRec{}
 	idx := map[string]int{}
 	for i, n := range t.nodes {
@@ -576,9 +702,15 @@ func runMesh(c *Ctx, im *Impl, cf *CaseFile, t *topo, perSender int, bigBudget *
 			if bl, ok := bufLens[s.toNode+"\x00"+s.toSvc]; ok && len(seen) > bl {
 				seen = seen[:bl]
 			}
-			exp[key{s.toNode, s.toSvc, s.fromNode + ":" + s.fromSvc, pHash(seen)}]++
+			k := key{s.toNode, s.toSvc, s.fromNode + ":" + s.fromSvc, pHash(seen)}
+			exp[k]++
+			lossy := lossyPath(t, idx[s.fromNode], idx[s.toNode])
+			if lossy {
+				lossyKey[k] = true
+				udpSent++
+			}
 			byPayload[pHash(seen)] = append(byPayload[pHash(seen)], s)
-			if s.err != nil {
+			if s.err != nil && !lossy {
 				im.Violate(fmt.Sprintf("WriteTo %q:%x on a converged mesh fails: %v", s.toNode, s.toSvc, s.err), "mesh-writeto-error", nil)
 			}
 		} else {
@@ -592,6 +724,10 @@ func runMesh(c *Ctx, im *Impl, cf *CaseFile, t *topo, perSender int, bigBudget *
 		k := key{d.node, d.svc, d.from, pHash(d.payload)}
 		if exp[k] > 0 {
 			exp[k]--
+			continue
+		}
+		if lossyKey[k] { // the right listener, source and payload once more: a datagram network may duplicate
+			udpDup++
 			continue
 		}
 		// classify
@@ -611,11 +747,26 @@ func runMesh(c *Ctx, im *Impl, cf *CaseFile, t *topo, perSender int, bigBudget *
 	}
 	lost := 0
 	for k, n := range exp {
+		if n > 0 && lossyKey[k] { // no delivery guarantee over UDP: counted, not judged
+			udpLost += n
+			continue
+		}
 		if n > 0 {
 			lost += n
 			if lost <= 3 {
 				im.Violate(fmt.Sprintf("datagram %s -> %q:%x (%s) was never delivered (or delivered altered) on %s", k.from, k.node, k.svc, k.ph[:12], t.name), "mesh-lost", replay("lost", k))
 			}
+		}
+	}
+	if hasUDP {
+		im.Histogram["mesh:udp-datagrams-sent"] += udpSent
+		im.Histogram["mesh:udp-datagrams-lost"] += udpLost
+		im.Histogram["mesh:udp-datagrams-duplicated"] += udpDup
+		im.Extra["mesh-udp:"+t.name] = fmt.Sprintf("udp-loss: %d of %d datagrams whose path crosses the UDP link did not arrive (not judged); %d arrived more than once (not judged); the %d that arrived were judged for listener, source and payload",
+			udpLost, udpSent, udpDup, udpSent-udpLost)
+		if udpSent > 0 && udpSent == udpLost {
+			im.Hist("mesh:inconclusive-nothing-crossed-the-udp-link")
+			im.Extra["mesh-udp:"+t.name] = fmt.Sprintf("inconclusive: none of %d datagrams crossed the UDP link", udpSent)
 		}
 	}
 	im.Extra["mesh:"+t.name] = map[string]interface{}{"nodes": t.nodes, "listeners": len(listeners), "sends": len(sends), "deliveries": len(recvs),
@@ -640,12 +791,17 @@ func runMesh(c *Ctx, im *Impl, cf *CaseFile, t *topo, perSender int, bigBudget *
 		hops                           int
 	}
 	wexp := map[wkey]int{}
+	wlossy := map[wkey]bool{} // packets of datagrams that cross a UDP link: may be missing further down, may repeat
 	for _, s := range sends {
 		if _, known := idx[s.toNode]; !known {
 			continue
 		}
 		p := treePath(t, idx[s.fromNode], idx[s.toNode])
+		lossy := lossyPath(t, idx[s.fromNode], idx[s.toNode])
 		for i := 0; i+1 < len(p); i++ {
+			if lossy {
+				wlossy[wkey{t.nodes[p[i]], t.nodes[p[i+1]], s.fromNode, s.fromSvc, s.toNode, s.toSvc, pHash(s.payload), int(consts.MaxHops) - (i + 1)}] = true
+			}
 			wexp[wkey{t.nodes[p[i]], t.nodes[p[i+1]], s.fromNode, s.fromSvc, s.toNode, s.toSvc, pHash(s.payload), int(consts.MaxHops) - (i + 1)}]++
 		}
 	}
@@ -664,6 +820,8 @@ func runMesh(c *Ctx, im *Impl, cf *CaseFile, t *topo, perSender int, bigBudget *
 		k := wkey{tp.a, tp.b, md.FromNode, md.FromService, md.ToNode, md.ToService, pHash(md.Data), int(md.HopsToLive)}
 		if wexp[k] > 0 {
 			wexp[k]--
+		} else if wlossy[k] {
+			// a repeated datagram below a UDP link: not judged
 		} else {
 			im.Violate(fmt.Sprintf("unexpected packet on link %q->%q: %q:%x -> %q:%x hops %d", tp.a, tp.b, md.FromNode, md.FromService, md.ToNode, md.ToService, md.HopsToLive),
 				"wire-unexpected-packet", replay("wire", k))
@@ -686,6 +844,9 @@ func runMesh(c *Ctx, im *Impl, cf *CaseFile, t *topo, perSender int, bigBudget *
 	}
 	missing := 0
 	for k, n := range wexp {
+		if n > 0 && wlossy[k] {
+			continue
+		}
 		if n > 0 {
 			missing += n
 			if missing <= 3 {
